@@ -239,7 +239,7 @@ def verify_function(ex, key, timeout_ms=10000, extra_pre=()):
                                          "result": repr(res)[:300], "reports": [repr(r) for r in out.st.reports]})
         for ob in ex.obligations:
             status, be, secs, mt, m = solve(list(ob.hyps) + links, ob.goal, axioms, timeout_ms)
-            rep.results.append(ObResult(ob.oid, ob.kind, status, be, secs, (), model=mt, meta={"z3model": m, "args": args}))
+            rep.results.append(ObResult(ob.oid, ob.kind, status, be, secs, tuple(ob.meta.get("props", ())), model=mt, meta={"z3model": m, "args": args}))
         if rep.paths == 0 and rep.raise_paths == 0:
             rep.status = "error"
             rep.detail = "zero feasible paths"
